@@ -82,6 +82,11 @@ class MessageManager(interfaces.TokenInterface, interfaces.MessageManager):
             cancellable.cancel()
         self._active_exchanges = None
 
+        # Pending empty ACKs would otherwise fire into the closed transport
+        for _mid, handle in self._piggyback_opportunities.values():
+            handle.cancel()
+        self._piggyback_opportunities = {}
+
         await self.message_interface.shutdown()
 
     #
